@@ -509,6 +509,12 @@ def builtin_corpus():
         "p(1(a)) :- fail.", "p :- fail, (1(a) -> b ; c).", "p :- a, fail, 1(b).", "p :- !, fail, 1(b).", "p :- (a, fail), 1(b).",
         "p :- fail -> 1(a) ; b.", "p :- (fail -> a ; b), 1(a).", "p :- fail, 1.", "p :- fail, X.", "p :- fail, q(1(a/2)).", "p :- fail, 007(_).",
         "p :- fail, q(_, 1(_)). r(_).", "p :- true, 1(a).", "p :- fail, fail, 1(a).", "p :- (fail, a ; fail, 2(b)), c.", "p(0). p(00).", "p(1a).", "p(1A).", "p(1_).", "p(a1B_2).", "p(_1).", "p(__).", "p(_a_).",
+        # quoted atoms that span lines: inside the quotes a % at the start of a line, a full stop, clause text are atom text, and
+        # what follows the closing quote on the same line counts
+        "p('a\n% b').", "p('a\n% b', 'c\nd').", "p('a\n% b', , 'c\nd').", "p('a\n% b') , 'c\nd').", "p('a\n% b', c\nd').",
+        "p('a\n% b' # , 'c\nd').", "p('a\n%'). q('b').", "p('a\n%' q('b\n').", "p('a\n  % b') :- q. % c\n", "p('\n%\n').", "p('a\r% b').",
+        "p('a\r\n% b\r\n').", "p('a\n% b\n', 'c').\n% d\nq.", "p('a\n:- b.\n').", "p('a\n').\n%').\n", "p('a\n% \\' b').", "p('a\n% \\').  q('b').",
+        "p('a \n').", "p('a\t\n b').", "% 'a\np('b\n% c').", "% it's\np. % 'x\nq('\n% y').",
     ]
     return [{'src': s, 'kind': 'corpus', 'base_clauses': 1} for s in srcs]
 
